@@ -28,6 +28,7 @@ enum Slot {
 struct Obj {
     host: usize,
     name: String,
+    anon: bool,
 }
 
 #[derive(Default)]
@@ -73,7 +74,8 @@ impl SysExec {
     }
     fn state(&self) -> Value {
         let txt = std::fs::read_to_string("/proc/self/maps").expect("harness: /proc/self/maps");
-        let mapped: Vec<u32> = self.objs.iter().map(|o| txt.lines().any(|l| l.ends_with(&o.name)) as u32).collect();
+        // 2 = cannot tell (an anonymous mapping has no name in /proc/self/maps)
+        let mapped: Vec<u32> = self.objs.iter().map(|o| if o.anon { 2 } else { txt.lines().any(|l| l.ends_with(&o.name)) as u32 }).collect();
         let hs: Vec<Value> = self
             .slots
             .iter()
@@ -146,14 +148,17 @@ impl Exec for SysExec {
                 let name = format!("/tmp/vmh-sys-{}-{}", std::process::id(), self.counter);
                 let f = std::fs::OpenOptions::new().read(true).write(true).create(true).truncate(true).open(&name).expect("harness: file");
                 f.set_len(4096).unwrap();
-                let region = make_region(n, NonZeroUsize::new(self.page).unwrap(), Some(FileOffset::new(f, 0)), base);
+                // every other candidate is private anonymous memory (what a discarded page loses for good), the rest is a shared
+                // file mapping (whose presence /proc/self/maps can tell)
+                let anon = geti("c") % 2 == 0;
+                let region = make_region(n, NonZeroUsize::new(self.page).unwrap(), if anon { None } else { Some(FileOffset::new(f, 0)) }, base);
                 let g = GuestRegionMmap::new(region, GuestAddress(base)).expect("harness: region");
                 let host = g.as_ptr() as usize;
                 // an address handed out again belongs to the new object (the old mapping is necessarily gone)
                 for o in self.objs.iter_mut().filter(|o| o.host == host) {
                     o.host = 0;
                 }
-                self.objs.push(Obj { host, name });
+                self.objs.push(Obj { host, name, anon });
                 self.push(Slot::Region(Arc::new(g)))
             }
             "build" => {
